@@ -3,7 +3,7 @@
    returns bonds in {-1,+1}, reaches the target exactly when the number of plaquettes to change is even
    and up to exactly one plaquette when it is odd, and neither ValueError branch is reachable. *)
 From Coq Require Import List ZArith Bool Arith Lia ZifyBool.
-From Koala Require Import Model.AStar Model.FluxSolver Proofs.ChainFlipFacts Proofs.AStarFacts.
+From Koala Require Import Model.AStar Model.FluxSolver Proofs.ChainFlipFacts Proofs.AStarFacts Proofs.AStarBudget.
 Import ListNotations.
 Open Scope Z_scope.
 
@@ -558,4 +558,35 @@ Proof.
   split; [reflexivity |]. split; [exact fs_pair_consec_ok |]. split; [| split; vm_compute; reflexivity].
   intros a b Ha Hb Hab. simpl in Ha, Hb.
   destruct a as [| [| a]]; destruct b as [| [| b]]; try lia; reflexivity.
+Qed.
+
+(* the A* model with early stopping and budget n_edges IS a total path oracle meeting the contract on a connected
+   plaquette graph (C11_astar_budget + as_path_meets_contract): this discharges the path-oracle hypothesis of the solver
+   contract for the model of path_between_plaquettes(l, a, b, maxits = l.n_edges) *)
+Definition as_oracle (adj : nat -> list (nat * nat)) (h : nat -> nat -> Z) (maxits : nat) (a b : nat)
+  : option (list nat * list nat) :=
+  match as_path adj h a b true maxits with
+  | AS_Path ns es _ => Some (ns, es)
+  | _ => None
+  end.
+
+Lemma as_oracle_contract : forall adj h ep nF,
+  (forall x y e, In (y, e) (adj x) -> 0 <= h x y /\ (x <> y -> 0 < h x y)) ->
+  (forall g x y e, In (y, e) (adj x) -> h x g <= h x y + h y g) ->
+  (forall x g, 0 <= h x g) ->
+  (forall x y e, In (y, e) (adj x) -> as_joined ep e y x = true) ->
+  (forall a b, (a < nF)%nat -> (b < nF)%nat -> exists ws es, as_chain adj ws es /\ hd_error ws = Some b /\ last ws b = a) ->
+  forall a b, (a < nF)%nat -> (b < nF)%nat -> a <> b -> fs_path_ok ep a b (as_oracle adj h (length ep) a b) = true.
+Proof.
+  intros adj h ep nF Hh Hcons Hhg Hadj Hconn a b Ha Hb Hab.
+  assert (G1 : forall x y e, In (y, e) (adj x) -> (e < length ep)%nat).
+  { intros x y e Hin. apply (as_joined_sides ep e y x 0%nat (Hadj x y e Hin)). }
+  assert (G2 : forall x y e x' y', In (y, e) (adj x) -> In (y', e) (adj x') -> (x = x' /\ y = y') \/ (x = y' /\ y = x')).
+  { intros x y e x' y' H1 H2. pose proof (Hadj _ _ _ H1) as J1. pose proof (Hadj _ _ _ H2) as J2.
+    unfold as_joined in J1, J2. destruct (nth_error ep e) as [[[u |] [v |]] |]; try discriminate. lia. }
+  destruct (as_path_budget adj h a b (length ep) Hh (Hcons b) (fun n => Hhg n b) (not_eq_sym Hab) G1 G2 (Hconn a b Ha Hb)
+              (length ep) (le_n _)) as (ns & es & mg & Hrun & _).
+  unfold as_oracle. rewrite Hrun.
+  apply (as_path_meets_contract adj h ep a b true (length ep) ns es mg Hh); [| exact Hrun].
+  intros x e y Hin. apply Hadj. exact Hin.
 Qed.
